@@ -72,6 +72,8 @@ def install(ex: Explorer) -> None:
 
     def c_request_unsafe(I: Interp, self_: V, data: V, timeout: V = NONE, tags: V = NONE) -> V:
         req = I.ghost["request_pdu"]
+        I.prove("T-transmission-uses-the-transport-returned-by-the-last-reconnect",
+                z3.BoolVal(self_ is I.ghost["live_transport"]))
         I.prove("T-bytes-written-are-request.pdu", models.mk_eq(I, data, req))
         I.prove("T-write-has-the-effective-timeout",
                 models.mk_eq(I, timeout, I.ghost["eff_timeout"]))
@@ -80,13 +82,21 @@ def install(ex: Explorer) -> None:
         return io_outcome(I, "request")
 
     def c_read(I: Interp, self_: V, timeout: V = NONE, tags: V = NONE) -> V:
+        I.prove("T-poll-uses-the-transport-returned-by-the-last-reconnect",
+                z3.BoolVal(self_ is I.ghost["live_transport"]))
         I.prove("T-poll-has-a-deadline", z3.BoolVal(timeout is not NONE))
         I.ghost["polls"] = I.ghost["polls"] + 1
         return io_outcome(I, "read")
 
     def c_reconnect(I: Interp, self_: V, timeout: V = NONE) -> V:
+        # contract of BaseTransport.reconnect: the receiver is closed, the *returned* transport
+        # is the one to use from now on
+        I.prove("T-reconnect-is-called-on-the-live-transport",
+                z3.BoolVal(self_ is I.ghost["live_transport"]))
         I.ghost["reconnects"] = I.ghost["reconnects"] + 1
-        return self_
+        fresh = VObj(StubTransport, {})
+        I.ghost["live_transport"] = fresh
+        return fresh
 
     ex.contracts[StubTransport.request_unsafe] = lambda I, *a, **k: loops_coro(
         I, lambda: c_request_unsafe(I, *a, **k))
@@ -190,6 +200,11 @@ def havoc_outer(I: Interp, fr: Frame) -> None:
                        "parses_in_attempt"])
     ev = I.fresh_int("last_io", IO_NONE, IO_FINAL)
     I.ghost["last_io"] = ev.t
+    if not I.branch(I.ghost["reconnects"] == 0):
+        # some reconnect happened: the live transport is an object no earlier alias refers to
+        fresh = VObj(StubTransport, {})
+        I.ghost["live_transport"] = fresh
+        I.ghost["client"].fields["transport"] = fresh
     # last_exception: some MissingResponse built in an earlier iteration (or the initial one)
     cause = I.choose([z3.BoolVal(True)] * 2)
     le = VObj(E.MissingResponse, {"request": I.ghost["request"], "args": VTuple([])})
@@ -213,6 +228,8 @@ def inv_outer(I: Interp, fr: Frame) -> list[tuple[str, Any]]:
     n = I.ghost["eff_retry"]
     retry_worthy = z3.Or(ev == IO_TIMEOUT, ev == IO_CONN, ev == IO_EMPTY, ev == IO_BUSY)
     return [
+        ("client.transport-is-the-live-transport", z3.BoolVal(
+            I.ghost["client"].fields["transport"] is I.ghost["live_transport"])),
         ("one-write-per-attempt", I.ghost["writes"] == k),
         ("reconnects-bounded-by-attempts", I.ghost["reconnects"] <= k),
         ("every-earlier-attempt-ended-retry-worthy", z3.Implies(k > 0, retry_worthy)),
@@ -243,7 +260,7 @@ def inv_inner(I: Interp, fr: Frame) -> list[tuple[str, Any]]:
     M = models.to_real(fr.env["max_n_timeout"])
     eff = I.ghost["eff_timeout"]
     base = z3.RealVal(0) if eff is NONE else z3.If(eff.t != 0, eff.t, 0)
-    k = fr.env["__k0"].t
+    k = fr.env["__k0"].t if "__k0" in fr.env else models.as_int(I, fr.env["i"])
     return [
         ("pending-count-in-range", z3.And(np_ >= 1, np_ < 120)),
         ("silent-polls-in-range", z3.And(nt >= 0, z3.ToReal(nt) < M)),
@@ -273,7 +290,8 @@ def progress_inner(I: Interp, fr: Frame, snap: Any) -> Any:
 
 
 # --------------------------------------------------------------------------- harness
-def make_harness(cfg_timeout: str, cfg_retry: str, self_timeout: str):
+def make_harness(cfg_timeout: str, cfg_retry: str, self_timeout: str,
+                 concrete_retry: int | None = None):
     C = client_module()
     from gallia.services.uds.core import service as S
     from gallia.services.uds.core import exception as E
@@ -281,6 +299,10 @@ def make_harness(cfg_timeout: str, cfg_retry: str, self_timeout: str):
     def harness(I: Interp) -> None:
         transport = VObj(StubTransport, {})
         max_retry = I.fresh_int("max_retry", 0, None, inp=True)
+        if concrete_retry is not None:
+            # bounded variant (used by C08): the retry loop is unrolled as written
+            max_retry = VInt(concrete_retry)
+            I.ex.loop_contracts.pop(("UDSClient.request_unsafe", 0), None)
         st: V = NONE if self_timeout == "none" else VFloat(z3.Real("self_timeout"))
         if st is not NONE:
             I.assume(st.t >= 0)
@@ -304,7 +326,8 @@ def make_harness(cfg_timeout: str, cfg_retry: str, self_timeout: str):
                         "request_pdu": pdu, "eff_timeout": eff_timeout,
                         "eff_retry": eff_retry.t, "parse_exc": None,
                         "parses_in_attempt": z3.IntVal(0),
-                        "le_has_cause": False})
+                        "le_has_cause": False, "client": client,
+                        "live_transport": transport})
         try:
             r = I.await_v(I.call_v(I.getattr_v(client, "request_unsafe"), [request, config], {}))
         except PyExc as e:
@@ -385,9 +408,14 @@ def run_script(script: list[str], max_retry: int) -> dict:
 
     class T(BaseTransport, scheme="scripted"):
         def __init__(self) -> None:
-            pass
+            self.dead = False
 
         async def _io(self) -> bytes:
+            if self.dead:
+                # contract of reconnect(): the old transport is closed, only the returned one
+                # talks to the peer
+                log["events"].append("io-on-a-closed-transport")
+                raise ConnectionResetError("this transport was replaced by reconnect()")
             ev = next(it, "timeout")
             log["events"].append(ev)
             if ev == "timeout":
@@ -414,7 +442,8 @@ def run_script(script: list[str], max_retry: int) -> dict:
 
         async def reconnect(self, timeout=None):  # type: ignore
             log["reconnects"] += 1
-            return self
+            self.dead = True
+            return T()
 
         @classmethod
         async def connect(cls, target, timeout=None):  # type: ignore
